@@ -65,6 +65,11 @@ CHECKS = {
         technique='explicit-state search of the default-configuration state space (32 states x 243 set_default_config operations, all transitions executed on the real module) with a complete observation vector per state (3 probes x 3^6 explicit/default combinations x every entry point) against a dictionary-merge reference model',
         text='Every set_default_config operation is executed from every reachable default configuration and compared with a dict-update model (state, return value, get_default_config, no other key changed). In the states observed, every combination of explicit/defaulted settings is pushed through pformat, pprint (three end strings), cpprint with colour off, PrettyPrinter.pformat/pprint and pretty_repr; all must equal the reference text for the merged effective settings, and that text must be the same in every state and from a second history. No test calls set_default_config or PrettyPrinter at all.',
         note='trusted: fully explicit pformat output as reference for its effective settings (cross-checked between states); quick observes the pristine state, the all-b state and a seed-rotated third of the 32 states, thorough all of them; a harness self-check fails the run if a setting is not observable through the probes'),
+    'C20': dict(
+        category='model_checking', design_ref='DESIGN.md 4/C20',
+        technique='stateless model checking of the real code: real threads under a deterministic cooperative scheduler (sys.settrace line events inside the package), all schedules up to a preemption bound enumerated depth-first over choice prefixes (iterative context bounding), result of every thread compared with the sequential run',
+        text='Two or three real threads perform first-use and repeated pformat calls on a class registered by name, its subclass, a directly registered class, an unregistered object, a struct sequence and small containers; the scheduler can switch at every line boundary inside the package and the explorer enumerates every schedule with at most B preemptions (B = 1 at every line plus B = 2 at the lines of functions that the source shows to touch shared mutable state in the quick tier; B = 2 everywhere / 3 at visible lines in the thorough tier). Every execution must return the sequential texts in every thread, raise nowhere and leave the registries in the sequential end state. The window between the membership test and the pop of the deferred registry is a few bytecodes wide - a stress test almost never hits it, a controlled schedule hits it deterministically.',
+        note='trusted: sys.settrace line-event delivery; switches inside functools / warnings / C code are not modelled (atomic), nor are free-threaded builds; visible lines are computed from the package AST, and the all-lines exploration at the lower bound validates that reduction; each schedule is replayable (run-length encoded) and the harness asserts that replaying the empty schedule twice gives identical observations'),
 }
 
 ALL = ['C%02d' % i for i in range(1, 21)]
